@@ -76,7 +76,7 @@ def _only(merged, prop):
 
 
 GRAPH_RULE = ("dependency-graph corpus (50 root types: one per edge kind - field, inline, flatten, Option/Vec/array/tuple/map key/map value/Box, generic argument (plain, inlined, flattened, nested), parameter default, field/variant/container `as`, type override, struct tag, newtype/tuple structs, self-reference, cycle, 17 enums covering payload kinds x 4 representations x inline/skip/flatten) "
-              "x every assignment of run-time placements {default, d/, s.ts, d/x.ts, ../up/, d/e/, d/x.js.ts, d/../s.ts (a second spelling of s.ts)} to the 7 type keys (quick 15360, thorough 331776 assignments; assignments that agree on the types reachable from the root are one case - an export never looks at the others) x base-directory spellings/entry points (quick 5: default, ./x/../out, through a symbolic link, absolute TS_RS_EXPORT_DIR, trailing slash; thorough 8) x pre-existing contents (quick 2: unrelated files, stale files at the targets; thorough 3) x import-esm {off,on}; one real export_all/export_all_to per case; distinct = distinct (root, locations of reachable types)")
+              "x every assignment of run-time placements {default, d/, s.ts, d/x.ts, ../up/, d/e/, d/x.js.ts, d/../s.ts (a second spelling of s.ts), s.mts (not a .ts file: only the same-file rules apply)} to the 7 type keys (quick 15360, thorough 331776 assignments; assignments that agree on the types reachable from the root are one case - an export never looks at the others) x base-directory spellings/entry points (quick 5: default, ./x/../out, through a symbolic link, absolute TS_RS_EXPORT_DIR, trailing slash; thorough 8) x pre-existing contents (quick 2: unrelated files, stale files at the targets; thorough 3) x import-esm {off,on}; one real export_all/export_all_to per case; distinct = distinct (root, locations of reachable types)")
 
 
 def _graph(tier, prop):
@@ -114,7 +114,7 @@ def c11(tier, seed):
 
 def c08(tier, seed):
     r = Result("exploration",
-               "every ordered pair (importing file, imported file) of relative paths built from <= D directory components over {a, b, a.b, x.ts, ts, .hid, ., ..} followed by a file name from {A.ts, b.c.ts, x.ts.ts, ts.ts, .h.ts, Ats} x base in {./bindings, /abs/dir, ./x/../y, /b} (thorough: + rel/dir, bindings/, /; D = 3, thorough additionally D = 4 over the directory sub-alphabet {a, x.ts, ., ..}) x cwd depth {1,3} x import-esm {off,on}, through the real import_path(); oracle: independent lexical resolver (specifier syntax + resolution == dependency file); plus the specifiers of every real import statement written by the graph corpus. distinct = distinct relative path shapes",
+               "every ordered pair (importing file, imported file) of relative paths built from <= D directory components over {a, A, a.b, x.ts, ts, .hid, ., ..} followed by a file name from {A.ts, b.c.ts, x.ts.ts, ts.ts, .h.ts, Ats, a.d.ts} x base in {./bindings, /abs/dir, ./x/../y, /b} (thorough: + rel/dir, bindings/, /; D = 3, thorough additionally D = 4 over the directory sub-alphabet {a, A, x.ts, ., ..}) x cwd depth {1,3} x import-esm {off,on}, through the real import_path(); oracle: independent lexical resolver (specifier syntax + resolution == dependency file); plus the specifiers of every real import statement written by the graph corpus. distinct = distinct relative path shapes",
                "exhaustive enumeration of path pairs through the real import_path against an independent resolver")
     depth = 3 if tier == "quick" else 4
     for feats in ((), ("import-esm",)):
@@ -231,7 +231,7 @@ def c16(tier, seed):
     name, crates, bins, cases, excluded = driver.e2_build("main", tier)
     r.evaluations += len(cases)
     r.counters["main_corpus_cases_compiled_by_rustc"] = len(cases) - len(excluded)
-    for corpus in ("generic", "present", "accepted"):
+    for corpus in ("generic", "present", "accepted", "docs", "strings"):
         _, _, _, cases2, excluded2 = driver.e2_build(corpus, "quick" if corpus == "accepted" else tier)
         r.evaluations += len(cases2)
         r.counters[corpus + "_corpus_cases_compiled_by_rustc"] = len(cases2) - len(excluded2)
@@ -246,7 +246,7 @@ def c16(tier, seed):
     if errors:
         r.violations.append({"class": {"check": "expansion-does-not-compile-when-ts-rs-is-renamed"}, "count": len(errors),
                              "examples": [{"case": "renamed:" + cid, "rustc": msg} for cid, msg in sorted(errors.items())[:5]]})
-    r.rule += "; plus rustc's verdict: every case of the main, generic and present E2 corpora (types in the supported fragment, valid by construction, incl. lifetimes, const parameters with defaults, bounds) must compile, and so must every ts-spelled item with <= 1 attribute option (thorough: <= 2 valid options) that the in-process run saw the derive ACCEPT (`accepted` corpus, ~4k items; excluded: `bound`, which replaces the generated bounds, `concrete` naming no parameter, `optional` on a non-Option - the designed IsOption diagnostic); and the complete generic and present corpora plus every third case of main once more in crates that know ts-rs only as `tsx`, every derive carrying #[ts(crate = \"tsx\")] (`renamed` corpus)"
+    r.rule += "; plus rustc's verdict: every case of the main, generic, present, docs and strings E2 corpora (types in the supported fragment, valid by construction, incl. lifetimes, const parameters with defaults, bounds; every doc text and every rename/tag string of those corpora) must compile, and so must every ts-spelled item with <= 1 attribute option (thorough: <= 2 valid options) that the in-process run saw the derive ACCEPT (`accepted` corpus, ~4k items; excluded: `bound`, which replaces the generated bounds, `concrete` naming no parameter, `optional` on a non-Option - the designed IsOption diagnostic); and the complete generic and present corpora plus every third case of main once more in crates that know ts-rs only as `tsx`, every derive carrying #[ts(crate = \"tsx\")] (`renamed` corpus)"
     r.assumptions = ["proc_macro2/syn behave in the unit-test build (fallback mode) as inside rustc",
                      "the validity table in e1_macros.rs::expected_outcome transcribes the documented incompatibilities; items with an invalid-value option are only required not to panic"]
     return r
